@@ -212,7 +212,7 @@ def lex(text, name="t.c"):
 
 
 def run_text(name, text, debug=0, R=None, trace=False, keep_tokens=False, fuel=None,
-             pre_tokens=None, line0=None, snap=None, reg=None):
+             pre_tokens=None, line0=None, snap=None, reg=None, pretext=None):
     """Run the real pipeline (Lexer -> Context -> Registry.run) on one file text.
 
     pre_tokens/line0: the fast path of DESIGN §2.3 (tokens of an already lexed
@@ -221,6 +221,9 @@ def run_text(name, text, debug=0, R=None, trace=False, keep_tokens=False, fuel=N
     """
     global _trace
     sys.setrecursionlimit(RECURSION_LIMIT)
+    if pre_tokens is not None and pretext is not None and not fast_path_ok():
+        # the shortcut of DESIGN §2.3 is not valid on this tree: lex the whole text
+        text, pre_tokens, line0 = pretext + text, None, None
     r = Result()
     r.name = name
     r.exc = None
@@ -279,6 +282,31 @@ def run_text(name, text, debug=0, R=None, trace=False, keep_tokens=False, fuel=N
             r.exc = _exc_info(e)
     r.status = f.errors.status
     return r
+
+
+_fast_ok = None
+
+
+def fast_path_ok():
+    """Self-test of the fast path, once per process: tokens of (prefix lexed alone) + (body lexed with the line counter
+    pre-set) must equal the tokens of the whole text.  If the private counter moved or was renamed the fast path is off."""
+    global _fast_ok
+    if _fast_ok is None:
+        pre = "/* a */\n\n#ifndef X_H\n"
+        body = "int\tf(void)\n{\n\treturn (0); /* c\nd */\n}\n"
+        try:
+            f0 = File("x.c", pre + body)
+            whole = [(t.type, t.pos, t.value) for t in Lexer(f0)]
+            f1 = File("x.c", pre)
+            a = [(t.type, t.pos, t.value) for t in Lexer(f1)]
+            f2 = File("x.c", body)
+            lx = Lexer(f2)
+            lx._Lexer__line = pre.count("\n") + 1
+            b = [(t.type, t.pos, t.value) for t in lx]
+            _fast_ok = (a + b == whole)
+        except Exception:  # noqa: BLE001
+            _fast_ok = False
+    return _fast_ok
 
 
 def format_files(files, fmt="humanized", use_colors=False):
